@@ -180,3 +180,30 @@ def decode_subroutine(flavour: str, raw: bytes):
         m, vals, _, _ = decode_instr(flavour, body[i:i + COMMAND_BYTES])
         ins.append((m, vals))
     return (v0, v1), app, ins
+
+
+# ---- reference text forms (NetQASM source syntax) -------------------------------------------------
+
+def fmt_reg(v) -> str:
+    return f"{v[0]}{v[1]}"
+
+
+def fmt_operand(kind: str, v) -> str:
+    if kind == R:
+        return fmt_reg(v)
+    if kind in (I8, I32):
+        return str(v)
+    if kind == AD:
+        return f"@{v}"
+    if kind == EN:
+        return f"@{v[0]}[{fmt_reg(v[1]) if isinstance(v[1], list) else v[1]}]"
+    if kind == SL:
+        a = fmt_reg(v[1]) if isinstance(v[1], list) else v[1]
+        b = fmt_reg(v[2]) if isinstance(v[2], list) else v[2]
+        return f"@{v[0]}[{a}:{b}]"
+    raise ValueError(kind)
+
+
+def fmt_instr(flavour: str, mnemonic: str, values: list) -> str:
+    _, kinds = TABLE[flavour][mnemonic]
+    return " ".join([mnemonic] + [fmt_operand(k, v) for k, v in zip(kinds, values)])
